@@ -435,8 +435,9 @@ func (r *UnitRun) evalAppend(st *State, e *ast.CallExpr) Val {
 		setElems = func(arr, at string) []string {
 			qcount++
 			k := fmt.Sprintf("k!q%d", qcount)
-			return []string{fmt.Sprintf("(forall ((%s Int)) (! (=> (and (<= 0 %s) (< %s %s)) (= (select %s (+ %s %s)) (select %s (+ %s %s)))) :pattern ((select %s (+ %s %s)))))",
-				k, k, k, addLen, arr, at, k, srcArr, src.S.Off, k, arr, at, k)}
+			hi := add(at, addLen)
+			return []string{fmt.Sprintf("(forall ((%s Int)) (! (=> (and (<= %s %s) (< %s %s)) (= (select %s %s) (select %s (+ %s (- %s %s))))) :pattern ((select %s %s))))",
+				k, at, k, k, hi, arr, k, srcArr, src.S.Off, k, at, arr, k)}
 		}
 	} else {
 		var elems []string
